@@ -115,7 +115,13 @@ pub fn run(ctx: &Ctx) -> Rep {
     // ---- two-call histories: word->bit of a card right after any word, and the reverse ----------------------
     {
         let cards = model::words52();
-        let stride: u32 = ctx.pick(1, 256, 8) as u32;
+        let stride: u32 = if ctx.escalate && !ctx.smoke() {
+            if ctx.leg == "checked" { 64 } else { 8 }
+        } else if ctx.leg == "checked" {
+            ctx.pick(1, 512, 8) as u32
+        } else {
+            ctx.pick(1, 256, 1) as u32
+        };
         let off: u32 = (seed % stride as u64) as u32;
         let hblocks: Vec<u32> = blocks.iter().copied().filter(|b| ctx.smoke() || b % stride == off).collect();
         let sh = par_run(ctx, hblocks.len(), mk, |st, bi| {
